@@ -1,0 +1,49 @@
+//go:build verif
+
+package tls
+
+// Accessors for the /verif monitors (property C31): read and replace the
+// ticket bytes carried by a client's cached session, and read the names of a
+// server Config's ticket keys. No behaviour, no assertions.
+
+// VerifSessionTicket returns a copy of the ticket bytes held by a cached client session.
+func VerifSessionTicket(s *ClientSessionState) []byte {
+	if s == nil {
+		return nil
+	}
+	return append([]byte(nil), s.sessionTicket...)
+}
+
+// VerifSessionWithTicket returns a shallow copy of s whose ticket bytes are
+// replaced by ticket; every other field (secrets, version, suite, times) is kept.
+func VerifSessionWithTicket(s *ClientSessionState, ticket []byte) *ClientSessionState {
+	if s == nil {
+		return nil
+	}
+	c := *s
+	c.sessionTicket = append([]byte(nil), ticket...)
+	return &c
+}
+
+// VerifSessionInfo returns the version and cipher suite recorded in a cached client session.
+func VerifSessionInfo(s *ClientSessionState) (vers, suite uint16) {
+	if s == nil {
+		return 0, 0
+	}
+	return s.vers, s.cipherSuite
+}
+
+// VerifTicketKeyNames returns the key names of the explicitly configured ticket
+// keys (SetSessionTicketKeys / SessionTicketKey) and of the automatically
+// rotated ones, as currently stored in the Config (no rotation is triggered).
+func VerifTicketKeyNames(c *Config) (explicit, auto [][ticketKeyNameLen]byte) {
+	c.mutex.RLock()
+	defer c.mutex.RUnlock()
+	for _, k := range c.sessionTicketKeys {
+		explicit = append(explicit, k.keyName)
+	}
+	for _, k := range c.autoSessionTicketKeys {
+		auto = append(auto, k.keyName)
+	}
+	return
+}
